@@ -63,7 +63,15 @@ def h_using(a, inst):
     return r.disposed_at == [end]
 
 
-@harness(instances=lambda tier: [{"N": n, "src": s} for n in (0, 1, 2) for s in ("hot", "raising_teardown", "sync")],
+def _final(form):
+    if form == "do_finally":
+        from reactivex.operators._do import do_finally
+        return do_finally
+    return ops.finally_action
+
+
+@harness(instances=lambda tier: [{"N": n, "src": s, "form": f} for n in (0, 1, 2) for s in ("hot", "raising_teardown", "sync")
+                                 for f in ("finally_action", "do_finally")],
          v=I(0, 1, n=lambda i: i["N"]), g=I(0, 2, n=lambda i: i["N"]), tg=I(0, 2), term=I(0, 2), D=I(201, 220), timeout=(90, 600))
 def h_finally(a, inst):
     """the action runs exactly once per subscription, after the terminal notification or at disposal -- also when tearing down the
@@ -88,7 +96,7 @@ def h_finally(a, inst):
                 raise boom
             return Disposable(dispose)
         src = reactivex.create(subscribe)
-    obs = src.pipe(ops.finally_action(lambda: count.append(sch.clock)))
+    obs = src.pipe(_final(inst.get("form", "finally_action"))(lambda: count.append(sch.clock)))
     escaped = None
     try:
         res = sch.start(lambda: obs.pipe(ops.do_action(None, lambda e: term_seen.append(sch.clock), lambda: term_seen.append(sch.clock))),
@@ -170,12 +178,41 @@ def h_do(a, inst):
     return same_events(ev, want)
 
 
+@harness(instances=lambda tier: [{"form": f} for f in ("finally_action", "do_finally")], g=I(0, 2), term=I(0, 2), d1=I(0, 6), d2=I(0, 6),
+         timeout=(60, 600))
+def h_finally_twice(a, inst):
+    """the same observable subscribed twice (at 200 and at 230, each disposed after d ticks unless it terminated first): the action
+    runs once for each subscription, at that subscription's own end"""
+    sch = make_scheduler()
+    runs = []
+    from engine.lib import on_completed, on_error, on_next
+    msgs = [on_next(1, 1)]
+    if a.term == 1:
+        msgs.append(on_completed(2 + a.g))
+    elif a.term == 2:
+        msgs.append(on_error(2 + a.g, SRC_ERR))
+    src = sch.create_cold_observable(msgs)
+    obs = src.pipe(_final(inst["form"])(lambda: runs.append(sch.clock)))
+    ends = []
+    for start, d in ((200, a.d1), (230, a.d2)):
+        h = [None]
+        sch.schedule_absolute(start, (lambda h: lambda s, st: h.__setitem__(0, obs.subscribe(lambda v: None, lambda e: None, scheduler=s)))(h))
+        sch.schedule_absolute(start + 1 + d, (lambda h: lambda s, st: h[0].dispose())(h))
+        end = start + 1 + d
+        if a.term != 0 and start + 2 + a.g < end:
+            end = start + 2 + a.g
+        ends.append(end)
+    sch.advance_to(260)
+    cover("ran")
+    return runs == ends
+
+
 ENCODED = ["reactivex/observable/using.py", "reactivex/operators/_finallyaction.py", "reactivex/operators/_do.py"]
 BOUNDS = {"quick": "inner timelines of 0..2 (do_action: 0..3) elements, gaps in [0,2], terminal none/completed/error, dispose instant in "
                    "[201,220] (before, at and after the termination instant), exception in the resource factory / observable factory / "
                    "a do_action callback at its k-th call (k in 1..5), truthy and falsy resources, an upstream whose teardown raises",
           "thorough": "same with the thorough budget"}
-ASSUMES = ["Tick/Span time stub", "do_finally is internal (reactivex.operators._do); finally_action is the public form checked"]
+ASSUMES = ["Tick/Span time stub", "do_finally is imported from reactivex.operators._do (it is not re-exported); both forms are checked"]
 MANIFEST = {
     "text": "Bounded symbolic model checking: timelines, dispose instant and exception positions are solver variables; the resource's "
             "dispose count must be exactly 1 (0 when the resource factory failed) at min(termination, dispose), the finally action "
